@@ -974,7 +974,11 @@ def run(ctx):
     ctx.assumptions += ["uv__calloc/uv__malloc/uv__strdup succeed (ENOMEM paths belong to C16)",
                         "no nested uv_run from inside a callback; no API call on a handle after its close_cb",
                         "stat status is 0 or a negative errno"]
-    ok = ctx.require_lean(["UvModel.Props.C17"])
+    ctx.trusted += ["tools/gen_lean.py (clang AST -> Lean for the loop-free kernels statbuf_eq, fs_poll_rearm, fs_poll_timer_cb, "
+                    "inotify_events, fs_event_start_mask) and UvModel/CSem.lean"]
+    # Tie A: the kernels above regenerated from /repo, GenEq/C17 re-proves them = FsPoll.statbufEq / finishPoll / timerFire, FsEvent.eventsOf / WATCH_MASK
+    gen_ok = ctx.gen_lean(need=["C17"])
+    ok = ctx.require_lean(["UvModel.GenEq.C17", "UvModel.Props.C17"]) and gen_ok
     exe = ctx.harness("c17_sim", ["harness/c17_sim.c"], link_lib=True, extra=WRAP)
     if exe is None:
         return
